@@ -32,7 +32,7 @@ type AsyncCase struct {
 	Ops         []AOp  `json:"ops"`
 }
 
-const waitLimit = 5 * time.Second
+const waitLimit = 3 * time.Second
 
 type asyncRun struct {
 	c  *corr.Ctx
@@ -84,7 +84,8 @@ func (a *asyncRun) waitExit(why string) {
 			fmt.Sprintf("callback %d started although the consumer had to exit (%s)", id, why))
 	case <-time.After(waitLimit):
 		a.broken = true
-		a.viol("a waiting consumer is always woken by a close; Close joins the consumer", "async-consumer-stuck", "consumer did not exit within 5 s ("+why+")")
+		stuck()
+		a.viol("a waiting consumer is always woken by a close; Close joins the consumer", "async-consumer-stuck", "consumer did not exit within 3 s ("+why+")")
 	}
 }
 
@@ -101,8 +102,9 @@ func (a *asyncRun) quiesce() {
 				a.pc, a.holdID = fmt.Sprintf("hold:%d", id), id
 			case <-time.After(waitLimit):
 				a.broken = true
+				stuck()
 				a.viol("a waiting consumer is always woken by a push", "async-lost-wakeup",
-					fmt.Sprintf("%d accepted items are queued but no callback started within 5 s", a.pending))
+					fmt.Sprintf("%d accepted items are queued but no callback started within 3 s", a.pending))
 			}
 		case len(a.pc) > 4 && a.pc[:4] == "err:" && (!a.ac.OnErrBlocks || a.cancelled):
 			a.waitExit("OnError returned")
@@ -129,7 +131,8 @@ func (a *asyncRun) closeProgress() {
 			a.retFlag, a.closing = true, false
 		case <-time.After(waitLimit):
 			a.broken = true
-			a.viol("Close returns once the consumer has exited (or was never started)", "async-close-blocked", "Close still blocked after 5 s")
+			stuck()
+			a.viol("Close returns once the consumer has exited (or was never started)", "async-close-blocked", "Close still blocked after 3 s")
 		}
 	} else {
 		select {
@@ -152,6 +155,7 @@ func (a *asyncRun) execHeld() {
 	case <-a.finished:
 	case <-time.After(waitLimit):
 		a.broken = true
+		stuck()
 		return
 	}
 	if fails {
@@ -160,6 +164,7 @@ func (a *asyncRun) execHeld() {
 			a.pc = fmt.Sprintf("err:%d", id)
 		case <-time.After(waitLimit):
 			a.broken = true
+			stuck()
 			a.viol("a processing error is reported exactly once", "async-error-not-reported", fmt.Sprintf("callback %d failed, OnError not called within 5 s", id))
 		}
 	} else {
@@ -258,12 +263,22 @@ func runAsyncDet(c *corr.Ctx, ac *AsyncCase, name string) {
 				}
 			}
 			ok := a.p.Push(func() error {
-				a.started <- id
+				// sends never block: a consumer gone wild (the same item pulled for ever) must not
+				// wedge the harness; the excess executions are still counted in a.executed
+				select {
+				case a.started <- id:
+				default:
+				}
 				<-g
 				a.mu.Lock()
-				a.executed = append(a.executed, id)
+				if len(a.executed) < 100000 {
+					a.executed = append(a.executed, id)
+				}
 				a.mu.Unlock()
-				a.finished <- id
+				select {
+				case a.finished <- id:
+				default:
+				}
 				if fails {
 					return errors.New("injected")
 				}
@@ -309,6 +324,7 @@ func runAsyncDet(c *corr.Ctx, ac *AsyncCase, name string) {
 					}
 					if time.Now().After(deadline) {
 						a.broken = true
+						stuck()
 						a.viol("Close closes the ring", "async-close-no-ring-close", "ring not closed 5 s after Close was called")
 						break
 					}
@@ -343,13 +359,15 @@ func runAsyncDet(c *corr.Ctx, ac *AsyncCase, name string) {
 	if !a.broken {
 		if !a.closing && !a.retFlag || a.closing {
 			if !a.closing {
-				a.p.Close()
-			} else {
-				select {
-				case <-a.closeRet:
-				case <-time.After(waitLimit):
-					a.viol("Close returns once the consumer has exited", "async-close-blocked", "Close still blocked at the end of the case")
-				}
+				a.closeRet = make(chan struct{})
+				cr := a.closeRet
+				go func() { a.p.Close(); close(cr) }()
+			}
+			select {
+			case <-a.closeRet:
+			case <-time.After(waitLimit):
+				stuck()
+				a.viol("Close returns once the consumer has exited", "async-close-blocked", "Close still blocked at the end of the case")
 			}
 		}
 	}
@@ -502,7 +520,7 @@ func runConcAsync(c *corr.Ctx, cc *ConcCase, budget time.Duration) {
 		switch cc.CloseMode {
 		case 0:
 			prodWG.Wait()
-			deadline := time.Now().Add(10 * time.Second)
+			deadline := time.Now().Add(4 * time.Second)
 			for executedN.Load() < acceptedN.Load() && !errSeen.Load() {
 				if time.Now().After(deadline) {
 					break
@@ -522,8 +540,9 @@ func runConcAsync(c *corr.Ctx, cc *ConcCase, budget time.Duration) {
 		go func() { p.Close(); close(done) }()
 		select {
 		case <-done:
-		case <-time.After(20 * time.Second):
+		case <-time.After(8 * time.Second):
 			hang = true
+			stuck()
 		}
 		ret := clock.Add(1)
 		closeOp = HOp{Client: cc.Producers + 1, Kind: "close", Call: call, Ret: ret}
@@ -534,7 +553,7 @@ func runConcAsync(c *corr.Ctx, cc *ConcCase, budget time.Duration) {
 		c.Violate(corr.Violation{Property: "C16", Clause: clause, Key: key, Where: "internal/asyncprocessor", Input: cc, Detail: detail})
 	}
 	if hang {
-		v("Close joins the consumer and returns", "aconc-close-hang", "Processor.Close did not return within 20 s")
+		v("Close joins the consumer and returns", "aconc-close-hang", "Processor.Close did not return within 8 s")
 		return
 	}
 	// Close has returned: the consumer goroutine has exited (done closed) – its log is stable
